@@ -211,8 +211,13 @@ func (P *curvePoint) UnmarshalBinary(buf []byte) error {
 		return fmt.Errorf("invalid point format: expected uncompressed (4), got %d", buf[0])
 	}
 
-	P.x = new(big.Int).SetBytes(buf[1 : 1+byteLen])
-	P.y = new(big.Int).SetBytes(buf[1+byteLen : 1+2*byteLen])
+	x := new(big.Int).SetBytes(buf[1 : 1+byteLen])
+	y := new(big.Int).SetBytes(buf[1+byteLen : 1+2*byteLen])
+	if !(&curvePoint{x: x, y: y, c: P.c}).Valid() {
+		return errors.New("invalid elliptic curve point")
+	}
+	P.x = x
+	P.y = y
 	return nil
 }
 
